@@ -39,7 +39,7 @@ theorem wf_step {c : Cfg} {s s' : State} {t : Nat} {lb : Lbl} (h : StepCase c s 
 
 theorem Inv1.init (c : Cfg) (hc : c.WF) : Inv1 c (State.init c) := by
   have hb : ∀ t, c.bal = some t → t ∉ c.workers := hc.2
-  refine ⟨?_, ?_, ?_, ?_, ?_, ?_, ?_, ?_, ?_, ?_, ?_, ?_, ?_, ?_⟩ <;> simp only [State.init]
+  refine ⟨?_, ?_, ?_, ?_, ?_, ?_, ?_, ?_, ?_, ?_, ?_, ?_, ?_, ?_, ?_⟩ <;> simp only [State.init]
   · intro t; by_cases h1 : t ∈ c.workers <;> by_cases h2 : c.bal = some t <;> simp [h1, h2, PcWF]
   · intro t; by_cases h1 : t ∈ c.workers <;> by_cases h2 : c.bal = some t <;> simp [h1, h2, Pc.role]
   · intro t; by_cases h1 : t ∈ c.workers <;> by_cases h2 : c.bal = some t <;> simp [h1, h2, Pc.role]
@@ -53,6 +53,7 @@ theorem Inv1.init (c : Cfg) (hc : c.WF) : Inv1 c (State.init c) := by
   · simp
   · simp
   · intro w; by_cases h1 : w ∈ c.workers <;> by_cases h2 : c.bal = some w <;> simp [h1, h2, Pc.role]
+  · simp
   · simp
 
 /-! ### what a step can change besides the program counter of the stepping thread -/
@@ -285,6 +286,15 @@ theorem Inv1.step_o4 (I : Inv1 c s) (h : StepCase c s t lb s') :
     · rw [h1.1]; exact this
     · rw [h1]; simp [upd_apply, hu]; exact this
 
+theorem Inv1.step_o5 (I : Inv1 c s) (h : StepCase c s t lb s') : ∀ w k, s'.own w = some k → w ∈ c.workers := by
+  intro w k hown
+  rcases own_frame h with h1 | ⟨k0, hpc, hav, h1, h2, _⟩
+  · rw [h1.1] at hown; exact I.o5 w k hown
+  · rw [h1] at hown
+    by_cases hw : w = t
+    · subst hw; exact I.r1 w (by rw [hpc]; rfl)
+    · simp [upd_apply, hw] at hown; exact I.o5 w k hown
+
 theorem Inv1.step_sc (I : Inv1 c s) (h : StepCase c s t lb s') : ∀ u, (s'.pc u).inTask = false → s'.scope u = 0 := by
   intro u hin
   have hfr := pc_frame h
@@ -310,7 +320,7 @@ theorem Inv1.step (I : Inv1 c s) (h : StepCase c s t lb s') : Inv1 c s' := by
   have hfr := pc_frame h
   have hrole := role_step h
   refine ⟨?_, ?_, ?_, I.step_r3 h, ?_, ?_, I.step_r6 h, I.step_run0 h, I.step_run1 h, I.step_o1 h, I.step_o2 h,
-    I.step_o3 h, I.step_o4 h, I.step_sc h⟩
+    I.step_o3 h, I.step_o4 h, I.step_o5 h, I.step_sc h⟩
   · -- wf
     intro u
     by_cases hu : u = t
